@@ -80,11 +80,18 @@ def run(tier):
         chk.violation("spec:" + inv, {"model": "MC_Relations", "invariant": inv}, {"tlc": res.trace_text()}, "")
     cases, meta = [], {}
     nprob = 16 if tier == "quick" else 160
-    for k in range(nprob):
+    nbig = 2 if tier == "quick" else 8
+    for k in range(nprob + nbig):
         measure = ["sad", "census", "ssd", "zncc"][k % 4]
         win = 3 if measure in ("census", "zncc") else [1, 3][k % 2]
         s = [1, 2, 4][k % 3]
         R_, C_ = int(rng.randint(12, 21)), int(rng.randint(30, 61))
+        big = k >= nprob
+        if big:
+            # images larger than the internal processing blocks (50 rows / columns for the bilateral filter, 100 for the disparity
+            # and median steps): a pixel's result must not depend on which block it falls in
+            measure, win, s = "sad", 1, 1
+            R_, C_ = int(rng.randint(103, 112)), int(rng.randint(103, 118))
         a = int(rng.randint(-3, 1))
         b = a + int(rng.randint(1, 4))
         vmax = int([6, 256, 4096, 65536][(k // 4) % 4])      # 3-bit ... 16-bit integer radiometry
@@ -105,11 +112,15 @@ def run(tier):
         else:
             mL = mR = None
         steps = gen_pipe(rng, measure, win, s)
+        if big:
+            steps = [("matching_cost", {"matching_cost_method": "sad", "window_size": 1, "subpix": 1}),
+                     ("disparity", {"disparity_method": "wta", "invalid_disparity": -9999}),
+                     ("filter", [{"filter_method": "median", "filter_size": 3}, {"filter_method": "bilateral", "sigma_space": 0.7, "sigma_color": 2.0}][k % 2])]
         cfg = lambda: {"pipeline": {nm: dict(c) for nm, c in steps}}   # noqa: E731
         rr, rc, m = radii(steps, R_, C_)
         ext = max(abs(a), abs(b))
         feat = {"measure": measure, "win": win, "subpix": s, "pipeline": [nm for nm, _ in steps], "interval": [a, b], "shape": [R_, C_], "radiometry_bits": int(np.log2(vmax)),
-                "cross_check": m == 2, "refinement": any(nm.startswith("refinement") for nm, _ in steps)}
+                "cross_check": m == 2, "refinement": any(nm.startswith("refinement") for nm, _ in steps), "larger_than_blocks": big}
         try:
             lw, _, _ = dp.run_pipeline(*crop_ds(L, Rt, mL, mR, (a, b), 0, R_, 0, C_), cfg())
         except Exception as exc:  # pylint: disable=broad-except
@@ -120,6 +131,8 @@ def run(tier):
         # crops: every parity of the row / column start, ends both inside and on the image border
         offs = [(0, 0), (1, 0), (0, 1), (1, 1), (2, 3), (3, 2), (0, 7), (1, 8)] if tier == "quick" else \
             [(i, j) for i in (0, 1, 2, 3) for j in (0, 1, 2, 3, 7, 8)]
+        if big:
+            offs = [(7, 13), (51, 0), (0, 49)]
         for (r0, c0) in offs:
             r1 = R_ if (r0 + c0) % 2 == 0 else R_ - int(rng.randint(0, 3))
             c1 = C_ if (r0 + c0) % 3 == 0 else C_ - int(rng.randint(0, 6))
